@@ -82,6 +82,7 @@ def enumerate_cases(tier):
     for d1, d2 in itertools.product(DTYPES, repeat=2):
         yield {"pair": [d1, d2]}
     yield {"zero_terms": True}
+    yield {"many_coinciding": True}
 
 
 @st.composite
@@ -403,6 +404,32 @@ def check_pair(d1, d2, ck):
                         (2,): numpy.where([0, 0, 1], numpy.multiply(a1, a1), 0).astype(d1)}, None, lab)
 
 
+def check_many_coinciding(ck):
+    """256 and more term products landing on one monomial: sums must not wrap in a narrow accumulator."""
+    numpoly = ck.numpoly
+    rows = [[i, j] for i in range(16) for j in range(16)]
+    for d, one, total in (("bool", True, True), ("uint8", 1, 0), ("int8", 1, 0), ("int64", 1, 256), ("float64", 1.0, 256.0)):
+        p = numpoly.polynomial_from_attributes(rows, [numpy.array(one, dtype=d)] * len(rows))
+        if p.dtype != numpy.dtype(d):
+            continue
+        # coefficient of q0**15*q1**15 in p*p: 256 products of ones, accumulated in dtype d like numpy does
+        with warnings.catch_warnings(), numpy.errstate(all="ignore"):
+            warnings.simplefilter("ignore")
+            want = numpy.add.reduce(numpy.full(256, one, dtype=d), dtype=d)
+        hooks.poison(False)
+        try:
+            z = p * p
+            got = {tuple(e): c for e, c in zip(z.exponents.tolist(), z.coefficients)}.get((15, 15))
+            got = numpy.zeros((), dtype=d) if got is None else numpy.asarray(got)
+        except Exception as err:
+            ck.fail("multiply(256 coinciding products)", "exception:" + type(err).__name__, cls_of(d), repr(err))
+            continue
+        ck.n += 1
+        if got.dtype != numpy.dtype(d) or got != want:
+            ck.fail("multiply(256 coinciding products)", "value", cls_of(d),
+                    "%s: coefficient of q0**15*q1**15 in (sum of 256 monomials)**2 is %r, expected %r" % (d, got, want))
+
+
 def check_zero_terms(ck):
     numpoly = ck.numpoly
     q0, q1 = numpoly.variable(2)
@@ -503,6 +530,10 @@ def check_case(case, ctx):
     elif "zero_terms" in case:
         check_zero_terms(ck)
         ctx.label("enumerated:zero-terms")
+        nt = True
+    elif "many_coinciding" in case:
+        check_many_coinciding(ck)
+        ctx.label("enumerated:many-coinciding-products")
         nt = True
     else:
         check_random(case, ck)
